@@ -32,7 +32,8 @@ def plan(tier, seed):
 def minimums(tier):
     return {"SRC.entries": 10000, "src.callouts": 15000, "src.error_details": 1500, "src.procedure_descs_expected": 300,
             "field.SRC.Hex Word": 50000, "field.SRC.Callout Section": 8000, "bmc.error_details": 80, "bmc.path_accesses": 2,
-            "cli.mode_runs": 200, "cli.mode_runs_with_dominated_options": 130, "embedded-in-larger-stream": 500}
+            "cli.mode_runs": 200, "cli.mode_runs_with_dominated_options": 130, "embedded-in-larger-stream": 500,
+            "src.callout_subsection_4096_words_or_more": 4}
 
 
 KINDS = [("SS", 10), ("PS", 4), ("MT", 3), ("UNK", 3), ("UD", 1)]
@@ -96,6 +97,20 @@ def run(spec, ctx):
         for _k in range(60):
             c = rng.choice("OBM")
             s = shaped_src(rng, u, c)
+            one([s, sentinel(c)], c)
+        # callout subsections near the top of what the 16-bit length-in-words field and the section size allow
+        # (about 1000 .. 16000 words: hundreds of callouts)
+        for n in (70, 150, 300, 300, 450, 700):
+            c = rng.choice("OBM")
+            while True:
+                s = pm.gen_src(rng, u, rng.random() < 0.5, c, reg=reg, ncallouts=n)
+                if 72 + 8 + sum(len(x.encode()) for x in s.m["callouts"]) <= 65000:
+                    break
+                n -= 20
+            words = (4 + sum(len(x.encode()) for x in s.m["callouts"])) // 4
+            ctx.see("big_callout_subsection.kwords", words // 1024)
+            if words >= 4096:
+                ctx.count("src.callout_subsection_4096_words_or_more")
             one([s, sentinel(c)], c)
 
 
